@@ -284,11 +284,16 @@ def monitor_magnitude(line, out):
     for f in ("S", "SS", "D1", "D2"):
         v = get(f)
         if v and any(math.isnan(float(x)) or math.isinf(float(x)) for x in v): return [("non-finite", f, "kernel value %s is not finite although every correct intermediate is representable (inputs scaled by 2^%d)" % (f, info["e"]))]
-    if T: cmp("symmetry", "k(x,z)", S, "k(z,x)", [T[j * n1 + i] for i in range(n1) for j in range(n2)])
-    if SS: cmp("symmetry", "k(x_i,x_j)", SS, "k(x_j,x_i)", [SS[j * n1 + i] for i in range(n1) for j in range(n1)])
-    for f in ("B", "BS", "SD", "MX"): cmp("batch!=single", f, get(f, n1 * n2), "single", S)
-    for f in ("B11", "KM", "KR"): cmp("batch!=single", f, get(f, n1 * n1), "single", SS)
+    # a kernel value is a sum that may cancel (orthogonal points, non-homogeneous expressions: s^2*0 + s*c); its natural scale is
+    # sqrt(k(x,x)) * sqrt(k(z,z)) >= |k(x,z)|: differences are judged relative to the two values OR 1e-12 of that scale, never absolutely
     D1 = get("D1", n1); D2 = get("D2", n2)
+    def rt(v): return math.sqrt(abs(float(v)))
+    e12 = [1e-12 * rt(D1[i]) * rt(D2[j]) for i in range(n1) for j in range(n2)] if D1 and D2 else None
+    e11 = [1e-12 * rt(D1[i]) * rt(D1[j]) for i in range(n1) for j in range(n1)] if D1 else None
+    if T: cmp("symmetry", "k(x,z)", S, "k(z,x)", [T[j * n1 + i] for i in range(n1) for j in range(n2)], extra=e12)
+    if SS: cmp("symmetry", "k(x_i,x_j)", SS, "k(x_j,x_i)", [SS[j * n1 + i] for i in range(n1) for j in range(n1)], extra=e11)
+    for f in ("B", "BS", "SD", "MX"): cmp("batch!=single", f, get(f, n1 * n2), "single", S, extra=e12)
+    for f in ("B11", "KM", "KR"): cmp("batch!=single", f, get(f, n1 * n1), "single", SS, extra=e11)
     if F and F[0] and D1 and D2: cmp("normalized-diagonal", "k(x,x)", D1 + D2, "1", [1.0] * (n1 + n2))
     if D1 and D2:
         want = [D1[i] - 2 * S[i * n2 + j] + D2[j] for i in range(n1) for j in range(n2)]
@@ -298,8 +303,8 @@ def monitor_magnitude(line, out):
     if SS and "GR" in d:
         reg = d["GR"][0]
         want = [SS[i * n1 + j] + (reg if i == j else 0) for i in range(n1) for j in range(n1)]
-        for f in ("G", "G1"): cmp("gram-assembly", f, get(f, n1 * n1), "single evaluations + regulariser", want)
-        cmp("gram-assembly", "KF", get("KF", n1 * n1), "single evaluations", SS)
+        for f in ("G", "G1"): cmp("gram-assembly", f, get(f, n1 * n1), "single evaluations + regulariser", want, extra=e11)
+        cmp("gram-assembly", "KF", get("KF", n1 * n1), "single evaluations", SS, extra=e11)
         dmax = max(abs(float(SS[i * n1 + i])) for i in range(n1))
         if dmax > 0 and all(not math.isinf(float(x)) for x in SS):
             sc = 2.0 ** -math.frexp(dmax)[1]                    # eigenvalues of the Gram matrix divided by (a power of two near) its largest diagonal entry
@@ -539,6 +544,7 @@ def compare_line(line, mout, iout, stats):
     if mag:    # magnitude cases: relative tolerance only; sums with cancellation (feature distance, gradients) relative to their terms
         dd = [abs(float(x)) for k in ("D1", "D2", "S") for x in (d.get(k) or []) if not (math.isnan(float(x)) or math.isinf(float(x)))]
         fscale["FD"] = fscale["FB"] = 1e-10 * max(dd + [0.0])
+        fscale["*"] = 1e-12 * max(dd + [0.0])       # kernel values are sums that may cancel (orthogonal points): relative to the largest k(x,x) of the case
         # gradient = sum_j c_ij * (terms of magnitude ~ degree * k / |x|) with cancellation (e.g. a normalised kernel in one dimension is constant)
         fscale["WI"] = 1e-11 * 32 * info["n2"] * max([abs(float(x)) for x in info["c"]] + [1.0]) * max(dd + [0.0]) * math.ldexp(1.0, -info["e"])
     if info["kind"] == "V" and F and len(F) >= 4:
@@ -568,7 +574,7 @@ def compare_line(line, mout, iout, stats):
                 if fi in ("WI", "WP"): stats[fi + "_tol"] = stats.get(fi + "_tol", 0) + 1
                 if fm in ("SE", "BE", "MX", "KD", "TK", "MT"): stats["x" + fm + "_tol"] = stats.get("x" + fm + "_tol", 0) + 1
                 if mag:
-                    if not (rclose(x, y, 1e-11, fscale.get(fi, 0.0)) or same_double(x, y)): diffs.append("%s[%d]: implementation %r, model %r (inputs * 2^%d)" % (fi, i, float(x), float(y), info["e"])); break
+                    if not (rclose(x, y, 1e-11, fscale.get(fi, fscale["*"])) or same_double(x, y)): diffs.append("%s[%d]: implementation %r, model %r (inputs * 2^%d)" % (fi, i, float(x), float(y), info["e"])); break
                 elif not close(x, y, 1e-11, 1e-12): diffs.append("%s[%d]: implementation %r, model %r" % (fi, i, float(x), float(y))); break
     return diffs
 
